@@ -251,7 +251,11 @@ class SynthObject(gpp.UGenParameter, metaclass=MetaSynthObject):
         '''
         obj = cls._create_ugen_object(rate)
         obj._add_to_synth()
-        return obj._init_ugen(*args)
+        ret = obj._init_ugen(*args)
+        if ret is obj._channels:
+            # The unit's own output list is not handed out.
+            ret = ChannelList(ret)
+        return ret
 
     @classmethod
     def _multi_new(cls, *args):  # Was multiNewList.
